@@ -120,17 +120,24 @@ def terminalExecGuards : List String :=
 
 /-! ### "denies every packet addressed to `a`" -/
 
-/-- rule `r` matches every packet whose destination is `a`, whatever else it carries -/
-def dstCovers (r : Rule) (a : Ip) : Bool :=
-  r.proto.isNone && r.srcIp.isNone && r.srcPort.isNone && r.dstPort.isNone && addrMatches r.dstIp r.dstWc a
+/-- the four values `frame.ip.protocol` can take (`VALID_PROTOCOLS`) -/
+def allProtos : List Proto := [.none, .tcp, .udp, .icmp]
 
-/-- DENY rules are skipped until one covers `a`; a PERMIT rule ahead fails the scan; exhausted list → implicit action -/
-def denyDstScan (a : Ip) : List (Option Rule) → Action → Bool
+/-- rule `r` matches every packet of protocol `pr` whose destination is `a`, whatever else it carries: the protocol is
+unspecified or literally `pr` -/
+def dstCovers (r : Rule) (a : Ip) (pr : Proto) : Bool :=
+  (r.proto.isNone || r.proto == some pr) && r.srcIp.isNone && r.srcPort.isNone && r.dstPort.isNone && addrMatches r.dstIp r.dstWc a
+
+/-- DENY rules are skipped until one covers `(a, pr)`; a PERMIT rule ahead fails the scan; exhausted list → implicit action -/
+def denyDstScan (a : Ip) (pr : Proto) : List (Option Rule) → Action → Bool
   | [], imp => imp == .deny
-  | none :: rest, imp => denyDstScan a rest imp
-  | some r :: rest, imp => r.action == .deny && (dstCovers r a || denyDstScan a rest imp)
+  | none :: rest, imp => denyDstScan a pr rest imp
+  | some r :: rest, imp => r.action == .deny && (dstCovers r a pr || denyDstScan a pr rest imp)
 
-def denyDstCheck (ba : List Ip) (acl : Acl) : Bool := ba.all (fun a => denyDstScan a acl.rules acl.implicit)
+/-- the list denies every packet addressed to an address of `ba`: for EVERY protocol value (one any-protocol rule, or one rule
+per protocol — `none` included: a list with DENY tcp, DENY udp, DENY icmp alone lets a protocol-`none` frame through) -/
+def denyDstCheck (ba : List Ip) (acl : Acl) : Bool :=
+  ba.all (fun a => allProtos.all (fun pr => denyDstScan a pr acl.rules acl.implicit))
 
 /-! ### B-topologies and their certificate -/
 
